@@ -64,10 +64,11 @@ pub fn sample_covariance_online(x: &[f64], y: &[f64]) -> f64 {
         let dy = j - meany;
         meanx += dx / n;
         meany += dy / n;
-        c += dx * dy;
+        // old deviation in x times the *updated* deviation in y
+        c += dx * (j - meany);
     }
 
-    c / n
+    c / (n - 1.)
 }
 
 #[cfg(test)]
